@@ -104,6 +104,47 @@ func (Scenario) Generate(rng *rand.Rand, focus, tier string) kernel.Plan {
 			add("pump", b)
 		}
 	}
+	if (focus == "C01" || focus == "C05" || focus == "C19") && kernel.Chance(rng, 0.25) || kernel.Chance(rng, 0.04) {
+		// prelude: traffic is delivered, then governance replaces the light client of one counterparty by a TSS
+		// client and later by a fresh Tendermint client again; what was delivered before must stay delivered
+		on := rng.Int63n(nc)
+		ofAbs := (on + 1 + rng.Int63n(nc-1)) % nc // the counterparty whose client on chain `on` is replaced
+		of := ofAbs
+		if ofAbs > on {
+			of = ofAbs - 1
+		}
+		dsel := on
+		if on > ofAbs {
+			dsel = on - 1
+		}
+		for k := 0; k < 3; k++ {
+			// native coin from the counterparty to chain `on`: receipts and acknowledgements land on `on`
+			add("send", ofAbs, rng.Int63n(4), dsel, 1, rng.Int63n(3), rng.Int63n(2), 0, rng.Int63n(6))
+		}
+		// deliver the packets but leave the acknowledgements unrelayed: the source still holds the commitments,
+		// so a later replay with a fresh proof is stopped by nothing but the receipt
+		add("pump", 0)
+		add("pump", 0)
+		add("pump", 0)
+		add("gov", on, 5, of, 0, 0)
+		for k := 0; k < 3; k++ {
+			for c := int64(0); c < nc; c++ {
+				add("block", c, 4, rng.Int63(), 0)
+			}
+			add("advance", 12)
+		}
+		add("gov", on, 6, of, 0, 0)
+		for k := 0; k < 3; k++ {
+			for c := int64(0); c < nc; c++ {
+				add("block", c, 4, rng.Int63(), 0)
+			}
+			add("advance", 12)
+		}
+		for k := 0; k < 6; k++ {
+			add("replay", rng.Int63n(nr), rng.Int63n(64), 1, rng.Int63n(3))
+			add("block", on, 6, rng.Int63(), 0)
+		}
+	}
 	for i := 0; i < n; i++ {
 		x := rng.Intn(total)
 		var k string
@@ -126,7 +167,7 @@ func (Scenario) Generate(rng *rand.Rand, focus, tier string) kernel.Plan {
 		case "forge":
 			add("forge", rng.Int63n(nc), rng.Int63n(3), rng.Int63n(2), rng.Int63n(2))
 		case "tss":
-			add("tss", rng.Int63n(nc), rng.Int63n(4), rng.Int63n(5), rng.Int63n(4), rng.Int63n(1<<16))
+			add("tss", rng.Int63n(nc), rng.Int63n(5), rng.Int63n(5), rng.Int63n(4), rng.Int63n(1<<16))
 		case "batch":
 			add("batch", rng.Int63n(nc), rng.Int63n(4), rng.Int63n(2), rng.Int63n(3), rng.Int63n(2), rng.Int63n(3), rng.Int63n(2))
 		case "block":
@@ -174,7 +215,11 @@ func (Scenario) Generate(rng *rand.Rand, focus, tier string) kernel.Plan {
 			if (focus == "C14" || focus == "C06") && kernel.Chance(rng, 0.5) {
 				alias = 1 + 3*rng.Int63n(3)
 			}
-			add("gov", rng.Int63n(nc), rng.Int63n(4), rng.Int63n(4), rng.Int63n(4), alias)
+			kind := rng.Int63n(4)
+			if kernel.Chance(rng, 0.3) {
+				kind = 4 + rng.Int63n(4)
+			}
+			add("gov", rng.Int63n(nc), kind, rng.Int63n(4), rng.Int63n(4), alias)
 		case "export":
 			add("export", rng.Int63n(nc))
 		}
